@@ -125,6 +125,8 @@ enum iauth_flags {
     IAUTH_GOT_HURRY_UP,
     /** Set when we get blank 'u' message, but have not gotten 'U'. */
     IAUTH_EMPTY_IDENT,
+    /** Set when the request timeout has expired. */
+    IAUTH_TIMED_OUT,
     /** Sentinel/count value for IAuth flags. */
     IAUTH_NUM_FLAGS
 };
